@@ -49,11 +49,15 @@ HIT_STEMS = [
     "jk_song", "jacket", "AlbumArt", "Song Jacket", "JK_x",
     "song-cd", "X-CD",
     "a disc", "a title", "Song Disc", "cd title",
-    "banner bg", "jk_song-cd",
+    "banner bg", "jk_song-cd", "jac\u212aet",
 ]
 MISS_STEMS = [
     "bnx", "bann er", "bn ", "abg2", "backgroun", "bg.x", "cdtitl", "cd-title", "xjk_", "jk-song", "jacke t", "album art",
     "song-cdx", "song_cd", "songcd", "disc", "title x", "adisc", "atitle", "plain", "cover", "song",
+    # letters that only a case-insensitive *regex* equates with i / s / k (dotted capital I, dotless i, long s, Kelvin
+    # sign): lower-casing, which is what "compared case-insensitively" means here, leaves them different ("jac\u212aet"
+    # lower-cases to "jacket" and is a hit under both readings; it sits in HIT_STEMS)
+    "CDT\u0130TLE", "cdt\u0131tle", "x di\u017fc", "x T\u0130TLE", "\u017fongbn x", "alb\u0131umart",
 ]
 AUDIO_NAMES = ["song.ogg", "song.MP3", "a.wav", "b.oga", "e.OGG", "c.flac", "d.ogg.txt", "ogg", "x.mp3x", "x.wave", "f.Wav"]
 OTHER_NAMES = ["notes.txt", "README", "song.lrc", "video.avi"]
